@@ -22,6 +22,9 @@ EXTENDS AkValue, Json
 
 CONSTANTS Alphabet,     \* set of command records
           MaxCmds,      \* length bound of a behaviour
+          MaxOpen,      \* nesting bound (number of simultaneously open containers)
+          WellNestedOnly, \* BOOLEAN: explore only behaviours without ill-nested commands (deep directed phases)
+          Allowed(_, _),  \* Allowed(history, c): syntactic filter of a directed phase (TRUE in the general phases)
           EmitOn
 
 VARIABLES cmds, done, open, obs, phase
@@ -95,6 +98,9 @@ BInit == cmds = <<>> /\ done = <<>> /\ open = <<>> /\ obs = <<>> /\ phase = "run
 
 Step(c) ==
   /\ phase = "run" /\ Len(cmds) < MaxCmds
+  /\ (c.c \in {"beginlist", "beginrecord", "begintuple"} => Len(open) < MaxOpen)
+  /\ (WellNestedOnly => Effect(c).ok = 1)
+  /\ Allowed(cmds, c)
   /\ LET e == Effect(c) IN
        /\ cmds' = cmds \o <<c>>
        /\ open' = e.open /\ done' = e.done
